@@ -552,4 +552,6 @@ def run(tier, only=None):
     rep.floor("file-derived table indexes", nt, 6)
     rep.assumptions.append("scope: files read as libraries/archives (lib.c, archive.c, file.c helpers); message catalogues, "
                            "terminal descriptions and the C++ type list are not library inputs")
+    from . import nullsearch
+    nullsearch.report(rep, "R8", ("lib.c", "archive.c", "foam.c", "buffer.c", "sexpr.c", "file.c", "emit.c", "fint.c"), floor=3)
     return rep
